@@ -592,6 +592,24 @@ func TestC01(t *testing.T) {
 			ev.Note("path/exec/pg_test.go not found: the PostgreSQL-derived inputs were not replayed")
 		}
 	})
+	t.Run("error_precedence_table", func(t *testing.T) {
+		// every raise site, suppressible and not, in every operand position (the table C08 compares silent and
+		// non-silent runs on): here the rules decide WHICH error comes out, e.g. the unknown variable in the upper
+		// bound of strict $[9 to $missing] and not the lower bound that is out of range
+		b := ev.enum(t)
+		cs := hardErrorCases()
+		for i, c := range cs {
+			if !mine(i) {
+				continue
+			}
+			v, f := checkModelFacts(c)
+			record("error_precedence_table", c, f, nil)
+			if !b.Check("c01.model", c, v) {
+				return
+			}
+		}
+		ev.Exhaustive("raise_sites_by_operand_position_by_document_by_mode", int64(len(cs)))
+	})
 	t.Run("pair_table", func(t *testing.T) {
 		b := ev.enum(t)
 		cs := pairTableCases(thorough())
